@@ -325,3 +325,25 @@ Proof.
   unfold types_wfb. rewrite andb_true_iff. intros [A B]. split; [apply forallb_wf_defb_sound; exact A|].
   rewrite forallb_forall in B. apply Forall_forall. intros d Hd. apply kinds_okb_sound. exact (B d Hd).
 Qed.
+
+(* the root operation types *)
+Theorem merged_roots_order_independent srcs srcs' m m' :
+  Permutation srcs srcs' -> merge_schemas srcs = Ok m -> merge_schemas srcs' = Ok m' -> m_roots m = m_roots m'.
+Proof.
+  intros Hp H1 H2.
+  assert (Pt : Permutation (flat_map s_types srcs) (flat_map s_types srcs')) by (apply Permutation_flat_map; exact Hp).
+  unfold merge_schemas in H1, H2.
+  destruct (merge_types (flat_map s_types srcs)) as [out|e|e] eqn:E1; cbn [bind] in H1; try discriminate.
+  destruct (merge_types (flat_map s_types srcs')) as [out'|e|e] eqn:E2; cbn [bind] in H2; try discriminate.
+  match type of H1 with (bind ?X _ = _) => destruct X; cbn [bind] in H1; try discriminate end.
+  match type of H2 with (bind ?X _ = _) => destruct X; cbn [bind] in H2; try discriminate end.
+  injection H1 as <-. injection H2 as <-. cbn [m_roots map].
+  assert (Hroot : forall n, match find_def n out with Some _ => n | None => "" end = match find_def n out' with Some _ => n | None => "" end).
+  { intros n. pose proof (defined_iff _ _ n E1) as D1. pose proof (defined_iff _ _ n E2) as D2.
+    assert (Hn : In n (map df_name (flat_map s_types srcs)) <-> In n (map df_name (flat_map s_types srcs'))).
+    { split; apply Permutation_in; [|apply Permutation_sym]; apply Permutation_map; exact Pt. }
+    destruct (find_def n out) as [a1|], (find_def n out') as [b1|]; try reflexivity; exfalso.
+    - assert (Hc : @None definition <> None) by (apply D2, Hn, D1; discriminate). apply Hc. reflexivity.
+    - assert (Hc : @None definition <> None) by (apply D1, Hn, D2; discriminate). apply Hc. reflexivity. }
+  rewrite (Hroot "Query"), (Hroot "Mutation"), (Hroot "Subscription"). reflexivity.
+Qed.
